@@ -78,7 +78,7 @@ func runC09(c *Ctx) {
 	for i := 0; i < n; i++ {
 		r := rng.Fork()
 		cid := fmt.Sprintf("c09-%d", i)
-		o := ATGenOpts{NullableVals: r.Chance(40)}
+		o := ATGenOpts{NullableVals: r.Chance(40), CollideKeys: r.Chance(25)}
 		cs := genATCase(r, w, cid, o)
 		cs.Validate = true
 		if len(cs.Rows) < 2 {
@@ -106,8 +106,29 @@ func runC09(c *Ctx) {
 			nF = 0
 		}
 		foreignKeys := map[string]bool{}
+		// keys whose parts concatenate to the same text as another written key's ((1,10) and (11,0)): the
+		// row comparison must still tell them apart
+		var twins []string
+		flat := map[string]int{}
+		for _, k := range uniqStrings(keys) {
+			flat[strings.ReplaceAll(k, "_", "")]++
+		}
+		for _, k := range uniqStrings(keys) {
+			if flat[strings.ReplaceAll(k, "_", "")] > 1 {
+				twins = append(twins, k)
+			}
+		}
+		if len(twins) > 0 {
+			c.Out.Count("twin-keys-written")
+			if nF == 0 {
+				nF = 1
+			}
+		}
 		for f := 0; f < nF; f++ {
 			key := keys[r.Intn(len(keys))]
+			if len(twins) > 0 && r.Chance(80) {
+				key = twins[r.Intn(len(twins))]
+			}
 			kparts := strings.Split(key, "_")
 			where := &ATCond{Op: "cmp:e", E: []*ATExpr{{K: 'c', Col: sc.PK[0]}, {K: 'l', Val: keyVal(sc, sc.PK[0], kparts[0])}}}
 			for k := 1; k < len(sc.PK) && k < len(kparts); k++ {
@@ -212,7 +233,23 @@ func runC09(c *Ctx) {
 				}
 			}
 		}
-		allOK := run.RollbackAll()
+		// every branch, last first; a delivery that is not answered rollbacked must leave the table and the
+		// branch's undo log exactly as they were
+		allOK := true
+		partial := ""
+		for bi := len(run.Branches) - 1; bi >= 0; bi-- {
+			tBefore := w.DumpTable(sc.Table)
+			_, hadLog := run.undoLogOf(run.Branches[bi])
+			if !run.Rollback(bi) {
+				allOK = false
+				_, hasLog := run.undoLogOf(run.Branches[bi])
+				if tAfter := w.DumpTable(sc.Table); tAfter != tBefore || hadLog != hasLog {
+					partial = fmt.Sprintf("branch %d answered failure but the table went from %s to %s (undo log %v -> %v)", bi+1, tBefore, tAfter, hadLog, hasLog)
+				}
+			}
+		}
+		run.Toks = append(run.Toks, "RB")
+		run.Obs = append(run.Obs, run.snapshot())
 		post := rowsByKey(w, sc)
 		op := strings.Join(append(cs.headerToks(), run.Toks...), " ")
 		c.Out.Case(cid, "C09", op, strings.Join(run.Obs, " "))
@@ -234,6 +271,9 @@ func runC09(c *Ctx) {
 		}
 		if class == "" && len(dirty) > 0 && allOK {
 			class, detail = "rollbacked_over_foreign_write", fmt.Sprintf("rows %v carry a foreign write but every branch answered rollbacked", dirty)
+		}
+		if class == "" && partial != "" {
+			class, detail = "failed_rollback_left_partial_compensation", partial
 		}
 		if run.crash != "" {
 			class, detail = "crash", run.crash
